@@ -5,14 +5,17 @@
   what one object carries (`P` progress records, `base` last-handled essence, deletion mark, own
   finalizer), its current essence `ess`, the operator's two memory flags, the clock and whether a watch
   event is pending. "Once changes stop" = nobody but the framework writes; "handlers stop failing" =
-  `AllFinal` (every invocation from now on yields a final outcome). The theorems quantify over ALL such
-  states, and `restart_safe` shows that EVERY history of turns (with any handler outcomes), external
-  edits, deletion requests, restarts and kills from a fresh object leads to one of them.
+  `FinitelyFailing` (every handler's outcome script has finitely many failures: from some retry number
+  on every invocation yields a final outcome; `AllFinal` = none at all, which gives the explicit bound).
+  The theorems quantify over ALL such states, and `restart_safe` shows that EVERY history of turns (with
+  any handler outcomes), external edits, deletion requests, restarts and kills from a fresh object leads
+  to one of them.
   GUARD of every theorem about `loopStep env`: the environment `env` (selection, prematch, finalizer
   requirement, handler behaviour) is constant during the silent tail, i.e. filters do not read what
-  the framework itself writes — see `Env`, `FiltersStable` and `terminates_stable`.
+  the framework itself writes — see `Env`, `FiltersStable`, `terminates_stable_partial` and, for what
+  happens without it, `unstable_filters_witness`.
 -/
-import Kopf.Lemmas.C03_Final
+import Kopf.Lemmas.C03_Fail
 namespace Kopf.C03
 open Kopf Kopf.C02
 
@@ -24,9 +27,8 @@ variable {E : Type} [DecidableEq E]
     handler's retry counter goes up by one, C02 `once_per_cycle`). `bound` is an explicit function of the state: (1 for a finalizer
     adjustment) + 2·(unfinished selected handlers) + (1 if none is due) + (1 if superseded records remain)
     + 1 + keepalive rounds of delays beyond the cap. No bound on handlers, delays or history.
-    NOT PROVED (stated in ASSUMPTIONS): that a script with finitely many failures is left behind after
-    finitely many such turns — that needs the retry counters of the selected handlers never to be reset
-    while the cycle is open. -/
+    That a script with finitely many failures is left behind after finitely many such turns is
+    `terminates_finitely_failing` below. -/
 theorem terminates_or_fails (env : Env) (wf : WF env) :
     ∀ (s : State E), Uniform env s →
       ∃ m, m ≤ bound env s ∧ ((iter env m s).pending = false ∨ FailsNow env (iter env m s)) := by
@@ -66,6 +68,44 @@ theorem terminates (env : Env) (wf : WF env) (hfin : AllFinal env) :
   obtain ⟨m, hm, h | ⟨_, h⟩⟩ := terminates_or_fails env wf s hu
   · exact ⟨m, hm, h⟩
   · exact absurd (show PassFinal env (iter env m s) from fun p _ => hfin p.1 p.2) h
+
+/-- TERMINATION for scripts with FINITELY MANY FAILURES (the property's quantifier: "every handler outcome script
+    with finitely many failures"). If from some retry number `N` on every invocation yields a final outcome —
+    before that the handlers may fail temporarily, raise arbitrary errors, ask for any delays, in any order —
+    the closed loop reaches a state with no pending event, from EVERY state, for every cause incl. deletion.
+    Proof: `terminates_or_fails` + the failure budget `fb` (Lemmas/C03_Fail: Σ over the handlers selected for
+    the open cycle of `N − retries on record`): no turn raises it — the retry counters of selected handlers are
+    never reset while the cycle is open — and a turn that consumes a scripted failure lowers it. No bound on
+    the number of turns is stated here: between two consumed failures `terminates_or_fails` bounds the turns
+    by `bound` of the state reached; a bound that is a function of the first state alone exists only for
+    `AllFinal` (`terminates`). -/
+theorem terminates_finitely_failing (env : Env) (wf : WF env) (hfin : FinitelyFailing env) :
+    ∀ (s : State E), Uniform env s → ∃ m, (iter env m s).pending = false := by
+  obtain ⟨N, hN⟩ := hfin
+  have main : ∀ (k : Nat) (s : State E), fb env N s ≤ k → UniformOn env.owned s.P →
+      ∃ m, (iter env m s).pending = false := by
+    intro k
+    induction k with
+    | zero =>
+      intro s hk hu
+      obtain ⟨m, _, h | h⟩ := terminates_or_fails env wf s hu
+      · exact ⟨m, h⟩
+      · have h1 := fb_step_lt env wf N hN (iter env m s) (iter_uniform env wf m s hu) h
+        have h2 := fb_iter_le env wf N m s hu
+        omega
+    | succ k ih =>
+      intro s hk hu
+      obtain ⟨m, _, h | h⟩ := terminates_or_fails env wf s hu
+      · exact ⟨m, h⟩
+      · have hum := iter_uniform env wf m s hu
+        have h1 := fb_step_lt env wf N hN (iter env m s) hum h
+        have h2 := fb_iter_le env wf N m s hu
+        obtain ⟨m', hq⟩ := ih (loopStep env (iter env m s)) (by omega) (loopStep_uniform env wf _ hum)
+        refine ⟨m + (1 + m'), ?_⟩
+        rw [iter_add, iter_add]
+        exact hq
+  intro s hu
+  exact main (fb env N s) s (Nat.le_refl _) hu
 
 /-- (Guard `prematch`: for objects the framework is blind to the clause is FALSE of the code, `blind_witness`, C03-F2.)
     FINAL STATE of an object that is not being deleted (and that the framework is not blind to).
@@ -200,6 +240,26 @@ theorem converges (env : Env) (wf : WF env) (hfin : AllFinal env) (hpm : env.pre
   obtain ⟨m, hm, hq⟩ := terminates env wf hfin s hu
   obtain ⟨h1, _, h2, h3, h4, _⟩ := final_state env hpm m s hp hg hmk hq
   exact ⟨m, hm, hq, h1, h2, h3, h4⟩
+
+/-- CONVERGENCE for scripts with finitely many failures (no bound in terms of the first state alone). -/
+theorem converges_finitely_failing (env : Env) (wf : WF env) (hfin : FinitelyFailing env) (hpm : env.prematch = true)
+    (s : State E) (hu : Uniform env s) (hp : s.pending = true) (hg : s.gone = false) (hmk : s.marked = false) :
+    ∃ m, (iter env m s).pending = false ∧ (iter env m s).base = some s.ess ∧
+      (∀ i ∈ env.owned, (iter env m s).P i = none) ∧
+      (loopStep env { iter env m s with pending := true }).writes = (iter env m s).writes + cp env ∧
+      (loopStep env { iter env m s with pending := true }).pending = false := by
+  obtain ⟨m, hq⟩ := terminates_finitely_failing env wf hfin s hu
+  obtain ⟨h1, _, h2, h3, h4, _⟩ := final_state env hpm m s hp hg hmk hq
+  exact ⟨m, hq, h1, h2, h3, h4⟩
+
+/-- CONVERGENCE of a deletion whose handlers' scripts have finitely many failures. -/
+theorem deletion_converges_finitely_failing (env : Env) (wf : WF env) (hfin : FinitelyFailing env)
+    (s : State E) (hu : Uniform env s) (hp : s.pending = true) (hg : s.gone = false)
+    (hmk : s.marked = true) (hbl : s.blocked = true) :
+    ∃ m, (iter env m s).pending = false ∧ (iter env m s).blocked = false ∧ (iter env m s).gone = !env.foreignFins := by
+  obtain ⟨m, hq⟩ := terminates_finitely_failing env wf hfin s hu
+  obtain ⟨h1, h2⟩ := final_state_deleted env m s hp hg hmk hbl hq
+  exact ⟨m, hq, h1, h2⟩
 
 /-- CONVERGENCE of a deletion: the delete handlers stop failing ⇒ within `bound env s` turns the own
     finalizer is released and the object is gone (or left to the foreign finalizers). This is the
@@ -373,17 +433,19 @@ theorem invoked_once_after_last_change (env : Env) (wf : WF env) (hpm : env.prem
     (`lostWrite`) or after the server applied it (`turn` then `restart`) — where EVERY action may come with
     its own environment (selection, prematch, finalizer requirement, limits, lifecycle, latencies: label
     edits and operator upgrades), all over the same registered handler ids. The state it leads to meets
-    the hypothesis of `terminates` for the environment in force in the end: once handlers stop failing,
-    the loop converges from there, within the bound of that state. (Induction over the history.)
+    the hypothesis of `terminates_finitely_failing` / `terminates` for the environment in force in the end:
+    once the handlers' scripts have only finitely many failures left, the loop converges from there — and
+    within the bound of that state if they do not fail at all any more. (Induction over the history.)
     Not an action: a kill between the two requests of a releasing turn (C08's transport). -/
-theorem restart_safe (env : Env) (wf : WF env) (hfin : AllFinal env) (hist : List (Env × Act E))
+theorem restart_safe (env : Env) (wf : WF env) (hfin : FinitelyFailing env) (hist : List (Env × Act E))
     (hall : ∀ ea ∈ hist, WF ea.1 ∧ ea.1.owned = env.owned) (e : E) (t : Tick) :
     Uniform env (runActsV (created e t) hist) ∧
-    ∃ m, m ≤ bound env (runActsV (created e t) hist) ∧
-      (iter env m (runActsV (created e t) hist)).pending = false := by
+    (∃ m, (iter env m (runActsV (created e t) hist)).pending = false) ∧
+    (AllFinal env → ∃ m, m ≤ bound env (runActsV (created e t) hist) ∧
+      (iter env m (runActsV (created e t) hist)).pending = false) := by
   have hu0 : UniformOn env.owned (created e t).P := ⟨"", fun i _ r h => by simp [created] at h⟩
   have hu := runActsV_uniform env.owned hist hall (created e t) hu0
-  exact ⟨hu, terminates env wf hfin _ hu⟩
+  exact ⟨hu, terminates_finitely_failing env wf hfin _ hu, fun ha => terminates env wf ha _ hu⟩
 
 /-- ACCUMULATED CHANGE. However many edits were made while no operator ran, (a) the first cause the new
     process computes depends only on the stored last-handled state and the FINAL essence — creation if
@@ -504,10 +566,15 @@ theorem iterG_succ' (envOf : State E → Env) (n : Nat) :
   | zero => intro s; rfl
   | succ n ih => intro s; simp only [iterG] at ih ⊢; exact ih _
 
-/-- Under the guard `FiltersStable` (the environment computed from the whole state does not move along
-    the silent tail) the loop of such an operator IS the loop of the constant environment, and
-    therefore terminates within the same bound. Without the guard nothing is claimed. -/
-theorem terminates_stable (envOf : State E → Env) (s : State E) (hst : FiltersStable envOf s)
+/-- FULL STATEMENT (property): for an operator whose filters are evaluated on the whole body — also on what the
+    framework itself writes — the loop terminates: `∀ envOf s, … → ∃ m, (iterG envOf m s).pending = false`.
+    That is FALSE (`unstable_filters_witness`, replayed on the real operator: a deletion handler whose filter
+    reads the framework's own finalizer makes it add and remove that finalizer for ever).
+    PROVED HERE under the guard `FiltersStable` (the environment computed from the whole state does not move
+    along the silent tail): the loop of such an operator IS the loop of the constant environment, and
+    therefore terminates within the same bound. The guard is sufficient, not necessary; without it nothing
+    is claimed. -/
+theorem terminates_stable_partial (envOf : State E → Env) (s : State E) (hst : FiltersStable envOf s)
     (wf : WF (envOf s)) (hfin : AllFinal (envOf s)) (hu : Uniform (envOf s) s) :
     (∀ n, iterG envOf n s = iter (envOf s) n s) ∧
     ∃ m, m ≤ bound (envOf s) s ∧ (iterG envOf m s).pending = false := by
@@ -543,7 +610,6 @@ theorem filtersStable_of_essence (envOf : State E → Env)
 /-! ### concrete instances: the clauses that are false of the code, regressions of repaired findings,
     and non-vacuity -/
 
-def okOutcome : Outcome := { final := true, delay := none, error := false, subrefs := [] }
 def tempOutcome (d : Tick) : Outcome := { final := false, delay := some d, error := true, subrefs := [] }
 
 /-- an update handler's record after one temporary failure: one attempt, due again at tick 512 -/
@@ -704,6 +770,56 @@ theorem sleeping_handler_woken_instance :
     · cases hP; rfl
     · cases hP
 
+/-! ### cycles that start with a carried patch (C08's transport): where C03-N2 lives -/
+
+/-- Every theorem about `loopStep` / `iter` above is about turns that start WITHOUT a carried patch
+    (`memory.remaining_patch = None`): there `loopStepC` is `loopStep`. FULL STATEMENT (property): convergence
+    whatever patch the cycles start with, i.e. along `loopStepC env c_k` for any sequence `c_k` that is eventually
+    `.none` — FALSE of the code: `carried_noop_witness` (OPEN C03-N2). -/
+theorem carried_none_partial (env : Env) (s : State E) : loopStepC env .none s = loopStep env s := by
+  unfold loopStepC; simp
+
+/-- A carried patch that still has something to change is harmless: the handlers are skipped in this turn, but the
+    re-sent patch changes the object and its echo re-triggers the cycle; records and last-handled state are as
+    they were. -/
+theorem carried_ops_leaves_event (env : Env) (s : State E) (hp : s.pending = true) (hg : s.gone = false)
+    (ha : adjusting env s = false) (hpm : env.prematch = true) :
+    (loopStepC env .ops s).pending = true ∧ s.writes < (loopStepC env .ops s).writes ∧
+    (loopStepC env .ops s).base = s.base ∧ (loopStepC env .ops s).P = s.P ∧ (loopStepC env .ops s).ess = s.ess := by
+  unfold loopStepC
+  simp [hp, hg, ha, hpm]
+  omega
+
+/-- the update `1 → 2` is outstanding, nothing on record yet, its event pending -/
+def stateC : State Nat :=
+  { P := fun _ => none, base := some 1, ess := 2, marked := false, blocked := false, gone := false,
+    noticed := false, fullyHandled := true, resumed := [], now := 256, pending := true, writes := 0 }
+
+/-- C03-N2 (open): the lost wake-up that is left of C03-F5. The cycle for the outstanding update starts with a carried
+    handler function that has become a no-op (the edit it conflicted with has fulfilled it): the update handler `u0` is
+    selected and would succeed at once (`AllFinal`), but the handlers are skipped, nothing is sent, no event follows:
+    the loop is quiescent with last-handled ≠ essence, `u0` never called — for ever (`iter` does not move a
+    quiescent state). All hypotheses of `converges` hold. Replayed on the real operator:
+    corpus/C03/N2_carried_noop_fn_swallows_cycle.json. -/
+theorem carried_noop_witness :
+    WF envI ∧ AllFinal envI ∧ Uniform envI stateC ∧ envI.prematch = true ∧ adjusting envI stateC = false ∧
+    stateC.pending = true ∧ stateC.gone = false ∧ stateC.marked = false ∧
+    isHandler stateC = true ∧ "u0" ∈ selOf envI stateC ∧ (pass envI stateC).invoked = [("u0", 0)] ∧
+    (loopStepC envI .noop stateC).pending = false ∧ (loopStepC envI .noop stateC).base ≠ some stateC.ess ∧
+    (loopStepC envI .noop stateC).writes = stateC.writes ∧
+    (∀ n, iter envI n (loopStepC envI .noop stateC) = loopStepC envI .noop stateC) ∧
+    -- whereas without the carried patch the same state converges in two turns
+    (iter envI 2 stateC).pending = false ∧ (iter envI 2 stateC).base = some 2 := by
+  refine ⟨⟨?_, by decide, by decide, by decide⟩, fun _ _ => rfl, ⟨"update", fun i _ r h => by simp [stateC] at h⟩,
+    rfl, by decide, rfl, rfl, rfl, by decide, by decide, by decide, by decide, by decide, by decide, ?_, by decide, by decide⟩
+  · intro c i hi
+    simp only [envI] at hi ⊢
+    split at hi
+    · exact hi
+    · simp at hi
+  · intro n
+    exact iter_quiescent envI n _ (by decide)
+
 /-- one id `h` registered for update AND deletion (stacked decorators on one function), and a sibling `u2` -/
 def envS : Env :=
   { owned := ["h", "u2"], subs := [],
@@ -746,10 +862,23 @@ def stateD : State Nat :=
   { P := fun _ => none, base := some 0, ess := 0, marked := true, blocked := true, gone := false,
     noticed := false, fullyHandled := true, resumed := [], now := 0, pending := true, writes := 0 }
 
-/-- a live object that needs the finalizer first: the adding turn, then the creation -/
-def stateN : State Nat :=
-  { P := fun _ => none, base := none, ess := 0, marked := false, blocked := false, gone := false,
-    noticed := false, fullyHandled := false, resumed := [], now := 0, pending := true, writes := 0 }
+/-- C03-N2, second shape (found by the generator): the swallowed cycle is the RELEASE of a deletion. The object is
+    marked and held by the own finalizer, the mandatory deletion handler `d0` succeeds at once: without a carried patch
+    one turn releases the object and it is gone; with a carried no-op the handlers AND the release are skipped, nothing
+    is sent, no event follows: the object stays marked and blocked for ever. (`final_state_deleted`'s negation for
+    `loopStepC`.) Replayed on the real operator: corpus/C03/N2b_carried_noop_fn_blocks_deletion.json. -/
+theorem carried_noop_blocks_release_witness :
+    AllFinal { envD false with exec := fun _ _ => okOutcome } ∧
+    stateD.pending = true ∧ stateD.marked = true ∧ stateD.blocked = true ∧
+    adjusting { envD false with exec := fun _ _ => okOutcome } stateD = false ∧
+    (iter { envD false with exec := fun _ _ => okOutcome } 1 stateD).gone = true ∧
+    (loopStepC { envD false with exec := fun _ _ => okOutcome } .noop stateD).pending = false ∧
+    (loopStepC { envD false with exec := fun _ _ => okOutcome } .noop stateD).blocked = true ∧
+    (loopStepC { envD false with exec := fun _ _ => okOutcome } .noop stateD).gone = false ∧
+    (loopStepC { envD false with exec := fun _ _ => okOutcome } .noop stateD).writes = stateD.writes := by
+  refine ⟨fun _ _ => rfl, rfl, rfl, rfl, by decide, by decide, by decide, by decide, by decide, by decide⟩
+
+-- `stateN` (Model): a live object that needs the finalizer first: the adding turn, then the creation
 
 -- non-vacuity of `terminates` / `converges` / `completed_against_final_partial` /
 -- `invoked_once_after_last_change` / `all_selected_completed`: a state with two unfinished selected handlers
@@ -772,6 +901,72 @@ example : bound envA stateA = 5 ∧ (iter envA 3 stateA).pending = true ∧ (ite
 example : NoExtras (cfgOf envA stateA) stateA.P ∧ (pass envA stateA).closed = false ∧
     (envA.exec "u1" 0).final = true :=
   ⟨fun i _ r h => by simp [stateA] at h, by decide, by decide⟩
+
+-- non-vacuity of `terminates_finitely_failing` / `converges_finitely_failing` / `restart_safe`: `envA`'s script
+-- fails once (`u2` at retry 0) and is final from retry 1 on: it is `FinitelyFailing`, and NOT `AllFinal`
+example : FinitelyFailing envA ∧ ¬ AllFinal envA := by
+  refine ⟨⟨1, fun i n hn => ?_⟩, fun h => absurd (h "u2" 0) (by decide)⟩
+  have : ¬ (i = "u2" ∧ n = 0) := fun h => by omega
+  simp [envA, this, okOutcome]
+
+-- `envOfU` (Model): ONE mandatory deletion handler whose filter reads the framework's own finalizer
+
+theorem unstable_step (s : State Nat) (hp : s.pending = true) (hg : s.gone = false) (hm : s.marked = false) :
+    (loopStepG envOfU s).pending = true ∧ (loopStepG envOfU s).gone = false ∧ (loopStepG envOfU s).marked = false ∧
+    (loopStepG envOfU s).blocked = !s.blocked ∧ (loopStepG envOfU s).writes = s.writes + 1 := by
+  have hadj : adjusting (envOfU s) s = true := by
+    rw [adjusting_eq]
+    cases hb : s.blocked <;> simp [envOfU, hb, hm]
+  unfold loopStepG
+  rcases turn_cases (envOfU s) s hp hg with ⟨_, _, hb, _, h⟩ | ⟨_, hb, h⟩ | ⟨h1, _⟩ | ⟨h1, _⟩ | ⟨h1, _⟩
+  · rw [h]; exact ⟨rfl, hg, hm, by simp [addState, hb], by simp [addState, cp, envOfU]⟩
+  · rw [h]; exact ⟨by simp [remState, hm], by simp [remState, hm], hm, by simp [remState, hb],
+      by simp [remState, cp, envOfU]⟩
+  · rw [hadj] at h1; cases h1
+  · rw [hadj] at h1; cases h1
+  · rw [hadj] at h1; cases h1
+
+/-- WITHOUT THE GUARD `FiltersStable` THE LOOP NEED NOT TERMINATE: the negation of the full statement above
+    `terminates_stable_partial`. The deletion handler of `envOfU` matches only while the object has no finalizer:
+    the framework adds its finalizer (a mandatory deletion handler matches), thereby the handler stops matching, the
+    framework is blind to the object and removes the finalizer nobody needs, thereby the handler matches again, …:
+    one PATCH per turn, for ever, although no handler ever fails (none is ever invoked). Replayed on the real
+    operator (corpus/C03/G1_filter_reads_own_finalizer.json; not a defect of the framework: the user's filter
+    flips on the framework's own write). -/
+theorem unstable_filters_witness :
+    WF (envOfU stateN) ∧ AllFinal (envOfU stateN) ∧ Uniform (envOfU stateN) stateN ∧
+    ¬ FiltersStable envOfU stateN ∧
+    ∀ n, (iterG envOfU n stateN).pending = true ∧ (iterG envOfU n stateN).writes = n := by
+  have key : ∀ (n : Nat) (s : State Nat), s.pending = true → s.gone = false → s.marked = false →
+      (iterG envOfU n s).pending = true ∧ (iterG envOfU n s).writes = s.writes + n := by
+    intro n
+    induction n with
+    | zero => intro s hp _ _; exact ⟨hp, rfl⟩
+    | succ n ih =>
+      intro s hp hg hm
+      obtain ⟨h1, h2, h3, _, h5⟩ := unstable_step s hp hg hm
+      obtain ⟨i1, i2⟩ := ih (loopStepG envOfU s) h1 h2 h3
+      simp only [iterG]
+      exact ⟨i1, by rw [i2, h5]; omega⟩
+  refine ⟨⟨?_, by decide, by decide, by decide⟩, fun _ _ => rfl, ⟨"delete", fun i _ r h => by simp [stateN] at h⟩, ?_, ?_⟩
+  · intro c i hi
+    simp only [envOfU] at hi ⊢
+    split at hi
+    · exact hi
+    · simp at hi
+  · intro hst
+    have h1 := hst 1
+    have hb : (iterG envOfU 1 stateN).blocked = true := by
+      have := (unstable_step stateN rfl rfl rfl).2.2.2.1
+      simpa [iterG, stateN] using this
+    have : (envOfU (iterG envOfU 1 stateN)).prematch = (envOfU stateN).prematch := by rw [h1]
+    have h2 : (envOfU (iterG envOfU 1 stateN)).prematch = false := by simp [envOfU, hb]
+    have h3 : (envOfU stateN).prematch = true := by decide
+    rw [h2, h3] at this
+    cases this
+  · intro n
+    have := key n stateN rfl rfl rfl
+    simpa [stateN] using this
 
 -- non-vacuity of `deletion_converges` / `final_state_deleted`: the delete handler fails once, sleeps, is retried,
 -- the closing pass releases the finalizer: the object is gone after 3 turns; with a foreign
